@@ -131,6 +131,13 @@ func (s *BadSmellListener) EnterInterfaceMethodDeclaration(ctx *InterfaceMethodD
 				paramValue := paramContext.VariableDeclaratorId().(*VariableDeclaratorIdContext).Identifier().GetText()
 				methodParams = append(methodParams, core_domain.CodeProperty{TypeValue: paramType, TypeType: paramValue})
 			}
+			if last := allFormal.LastFormalParameter(); last != nil {
+				// a variable-arity parameter (`int... rest`) is a parameter too
+				lastContext := last.(*LastFormalParameterContext)
+				paramType := lastContext.TypeType().GetText() + "..."
+				paramValue := lastContext.VariableDeclaratorId().(*VariableDeclaratorIdContext).Identifier().GetText()
+				methodParams = append(methodParams, core_domain.CodeProperty{TypeValue: paramType, TypeType: paramValue})
+			}
 		}
 	}
 
@@ -210,6 +217,15 @@ func (s *BadSmellListener) EnterMethodDeclaration(ctx *MethodDeclarationContext)
 				paramContext := param.(*FormalParameterContext)
 				paramType := paramContext.TypeType().GetText()
 				paramValue := paramContext.VariableDeclaratorId().(*VariableDeclaratorIdContext).Identifier().GetText()
+				methodParams = append(methodParams, core_domain.CodeProperty{TypeValue: paramType, TypeType: paramValue})
+
+				localVars[paramValue] = paramType
+			}
+			if last := allFormal.LastFormalParameter(); last != nil {
+				// a variable-arity parameter (`int... rest`) is a parameter too
+				lastContext := last.(*LastFormalParameterContext)
+				paramType := lastContext.TypeType().GetText() + "..."
+				paramValue := lastContext.VariableDeclaratorId().(*VariableDeclaratorIdContext).Identifier().GetText()
 				methodParams = append(methodParams, core_domain.CodeProperty{TypeValue: paramType, TypeType: paramValue})
 
 				localVars[paramValue] = paramType
